@@ -282,6 +282,116 @@ def synth_header_context(repo: Repo, rep, P: str, rule: str):
             rep.ok(f"{P}.{rule}", scon, norm(c), "stand-alone context", nontrivial=False)
         else:
             rep.violation(f"{P}.{rule}", scon, norm(c), "the synth writer must emit the module header with in_project=False", where)
+    context_switch_rule(repo, rep, P, rule)
+
+
+_PARENT = object()
+
+
+def _tt_eval(e: ast.expr, env: Dict[str, Any]):
+    """Value of a small boolean expression over names / `self.parent` bound in env (None, True, False or an opaque object)."""
+    if isinstance(e, ast.Constant):
+        return e.value
+    if isinstance(e, ast.Name):
+        if e.id in env:
+            return env[e.id]
+        raise NotConst(e.id)
+    if isinstance(e, ast.Attribute):
+        t = norm(e)
+        if t in env:
+            return env[t]
+        raise NotConst(t)
+    if isinstance(e, ast.UnaryOp) and isinstance(e.op, ast.Not):
+        return not _tt_eval(e.operand, env)
+    if isinstance(e, ast.BoolOp):
+        v = None
+        for x in e.values:
+            v = _tt_eval(x, env)
+            if isinstance(e.op, ast.And) and not v:
+                return v
+            if isinstance(e.op, ast.Or) and v:
+                return v
+        return v
+    if isinstance(e, ast.IfExp):
+        return _tt_eval(e.body if _tt_eval(e.test, env) else e.orelse, env)
+    if isinstance(e, ast.Compare) and len(e.ops) == 1:
+        a, b = _tt_eval(e.left, env), _tt_eval(e.comparators[0], env)
+        op = e.ops[0]
+        if isinstance(op, ast.Is):
+            return a is b
+        if isinstance(op, ast.IsNot):
+            return a is not b
+        if isinstance(op, ast.Eq):
+            return a == b
+        if isinstance(op, ast.NotEq):
+            return a != b
+        if isinstance(op, ast.In):
+            return a in b
+        if isinstance(op, ast.NotIn):
+            return a not in b
+    if isinstance(e, (ast.Tuple, ast.List, ast.Set)):
+        return tuple(_tt_eval(x, env) for x in e.elts)
+    if isinstance(e, ast.Call) and norm(e.func) == "bool" and len(e.args) == 1:
+        return bool(_tt_eval(e.args[0], env))
+    raise NotConst(norm(e))
+
+
+def context_switch_rule(repo: Repo, rep, P: str, rule: str):
+    """Module.iff_chunks(in_project): the in-project-only chunks are emitted exactly when the caller says so — in_project=True
+    emits them, in_project=False never does (whatever the module's parent is), None falls back to `self.parent is not None`.
+    The emission tests are evaluated on all six combinations of (in_project, parent) after writing the locals they read in terms
+    of the argument (a truth table; no repository code runs)."""
+    mod = repo.cls("Module", module="rv.modules.module")
+    fn = inline.normalize(repo, mod, repo.own_method(mod, "iff_chunks", raw=True))
+    con = f"{mod.file.rel}:Module.iff_chunks"
+    params = [a.arg for a in fn.args.args if a.arg != "self"]
+    if not params:
+        rep.inconclusive(f"{P}.{rule}", con, "", "iff_chunks takes no context argument", f"{mod.file.rel}:{fn.lineno}")
+        return
+    cp = params[0]
+    env: Dict[str, ast.expr] = {}
+
+    def sub(e: ast.expr) -> ast.expr:
+        return _resolve(e, env, depth=1) if env else e
+    found = 0
+    for st in fn.body:
+        if isinstance(st, ast.Assign) and len(st.targets) == 1 and isinstance(st.targets[0], ast.Name):
+            env[st.targets[0].id] = sub(st.value)
+            continue
+        if isinstance(st, ast.If) and not st.orelse and len(st.body) == 1 and isinstance(st.body[0], ast.Assign) \
+                and len(st.body[0].targets) == 1 and isinstance(st.body[0].targets[0], ast.Name):
+            nm = st.body[0].targets[0].id
+            old = env.get(nm, ast.Name(id=nm, ctx=ast.Load()))
+            env[nm] = ast.IfExp(test=sub(st.test), body=sub(st.body[0].value), orelse=old)
+            continue
+        if isinstance(st, ast.If) and any(isinstance(y, (ast.Yield, ast.YieldFrom)) for y in ast.walk(st)):
+            t = sub(st.test)
+            names = {n.id for n in ast.walk(t) if isinstance(n, ast.Name)}
+            attrs = {norm(n) for n in ast.walk(t) if isinstance(n, ast.Attribute)}
+            if cp not in names or not names <= {cp, "self", "bool"} or not attrs <= {"self.parent"}:
+                continue
+            found += 1
+            ids = sorted({norm(y.value.elts[0]) for y in ast.walk(st) if isinstance(y, ast.Yield) and isinstance(y.value, ast.Tuple) and y.value.elts})
+            bad = None
+            try:
+                for arg in (None, True, False):
+                    for parent in (None, _PARENT):
+                        got = bool(_tt_eval(t, {cp: arg, "self.parent": parent}))
+                        want = arg if arg is not None else (parent is not None)
+                        if got != want and bad is None:
+                            bad = (arg, parent is not None, got)
+            except NotConst as e:
+                rep.inconclusive(f"{P}.{rule}", con, norm(t)[:120], f"context test not evaluable: {e}", f"{mod.file.rel}:{st.lineno}")
+                continue
+            if bad is None:
+                rep.ok(f"{P}.{rule}", con, f"if {norm(t)[:80]}: {', '.join(ids)[:60]}", "emitted iff the caller's context says in-project (None: has a parent)")
+            else:
+                rep.violation(f"{P}.{rule}", con, f"if {norm(t)[:100]}: {', '.join(ids)[:60]}",
+                              f"with {cp}={bad[0]} and the module {'attached to a project' if bad[1] else 'free-standing'} the in-project-only chunks are "
+                              f"{'written' if bad[2] else 'left out'}: the caller's explicit context is overridden (a .sunsynth of an attached module "
+                              "gets SXXX/SYYY/SZZZ/SVPR)", f"{mod.file.rel}:{st.lineno}")
+    if not found:
+        rep.inconclusive(f"{P}.{rule}", con, "", "no emission test over the context argument found", f"{mod.file.rel}:{fn.lineno}")
 
 
 def _writer_nf(repo: Repo, ci, name: str) -> ast.FunctionDef:
